@@ -24,6 +24,8 @@ What is mirrored, function by function:
                   `synchronousOld` is the code before it (ends silently when `collect` returns).
   `connect`       `connector.__init__`: Register, `await_response`, the `with self:` exit check and the
                   four assertions.
+  `identify`      `proxy.list_identity_details` as used by `open_gateway` (proxy without `identity_default`)
+  `openGateway`   `proxy.open_gateway`: connector, then List Identity; any exception discards the new gateway
   `proxyUse`      `with proxy: list( proxy.read( ... ))`: `open_gateway` (lazily creates the connector),
                   the operation on the gateway, `__exit__` => `close_gateway` on any exception.
 
@@ -347,6 +349,46 @@ def connect (evs : List Ev) : Except ConnErr CSt :=
 
 /-! ### the proxy's gateway -/
 
+/-- how the List Identity exchange of `open_gateway` fails -/
+inductive IdErr where
+  | noidentity     -- "No response to List Identity within timeout" (nothing, or only part of a frame, or EOF)
+  | rxerror        -- EOF inside the List Identity reply
+  | badidentity    -- a successful reply that carries no identity (`rsp.enip.CIP.list_identity...` raises)
+deriving Repr, DecidableEq
+
+def cmdListIdentity : Nat := 0x63
+
+/-- `proxy.list_identity_details` + the use `open_gateway` makes of the reply, on a freshly registered
+connector: List Identity is sent, `await_response`, `assert rsp`; a reply with non-zero status is
+accepted without an identity. -/
+def identify (st : CSt) : Except IdErr CSt :=
+  match await st.buf st.evs with
+  | (.frame f, buf, evs) =>
+    if f.status = 0 ∧ f.cmd ≠ cmdListIdentity then .error .badidentity
+    else .ok { buf := buf, evs := evs, pend := [] }
+  | (.stop, _, _) => .error .noidentity
+  | (.timeout, _, _) => .error .noidentity
+  | (.rxerror, _, _) => .error .rxerror
+
+/-- how `proxy.open_gateway` fails: creating the connector (Register), or identifying the device -/
+inductive OpenErr where
+  | connect (e : ConnErr)
+  | identify (e : IdErr)
+deriving Repr, DecidableEq
+
+/-- `proxy.open_gateway` on a connection that will deliver `evs`: create the connector; unless the proxy
+was given an `identity_default` (`ident = false`), exchange List Identity.  On any exception the new
+gateway is closed and discarded (`close_gateway` before the re-raise): no state is returned. -/
+def openGateway (ident : Bool) (evs : List Ev) : Except OpenErr CSt :=
+  match connect evs with
+  | .error e => .error (.connect e)
+  | .ok st =>
+    if ident then
+      match identify st with
+      | .error e => .error (.identify e)
+      | .ok st' => .ok st'
+    else .ok st
+
 /-- `proxy`: the gateway (connection number and connector state) if one is open, and how many
 connections have been opened so far -/
 structure Proxy where
@@ -355,15 +397,16 @@ structure Proxy where
 deriving Repr
 
 inductive UseOut where
-  | connfail (conn : Nat) (e : ConnErr)             -- `open_gateway` raised
+  | openfail (conn : Nat) (e : OpenErr)             -- `open_gateway` raised (out of `proxy.__enter__`)
   | ran (conn : Nat) (rs : List Res) (e : End)      -- the operation ran on connection `conn`
   | refused                                         -- no connection could be made
 deriving Repr
 
 /-- `with proxy: list( proxy.read( ... ))` where the `n`-th connection opened delivers `conns[n]`.
-`__enter__` opens the gateway if there is none; an exception inside closes and discards it. -/
-def proxyUse (P : Frame → Resp) (depth : Nat) (conns : List (List Ev)) (p : Proxy) (issued : List Iss) :
-    Proxy × UseOut :=
+`__enter__` opens the gateway if there is none (an exception there leaves none); an exception inside the
+`with` closes and discards it (`__exit__`). -/
+def proxyUse (P : Frame → Resp) (ident : Bool) (depth : Nat) (conns : List (List Ev)) (p : Proxy)
+    (issued : List Iss) : Proxy × UseOut :=
   match p.gateway with
   | some (n, st) =>
     match pipeline P depth 0 issued st with
@@ -373,19 +416,19 @@ def proxyUse (P : Frame → Resp) (depth : Nat) (conns : List (List Ev)) (p : Pr
     match conns[p.opened]? with
     | none => (p, .refused)
     | some evs =>
-      match connect evs with
-      | .error e => ({ gateway := none, opened := p.opened + 1 }, .connfail p.opened e)
+      match openGateway ident evs with
+      | .error e => ({ gateway := none, opened := p.opened + 1 }, .openfail p.opened e)
       | .ok st =>
         match pipeline P depth 0 issued st with
         | (rs, .ok, st') => ({ gateway := some (p.opened, st'), opened := p.opened + 1 }, .ran p.opened rs .ok)
         | (rs, .error e, _) => ({ gateway := none, opened := p.opened + 1 }, .ran p.opened rs (.error e))
 
-def proxyRun (P : Frame → Resp) (depth : Nat) (conns : List (List Ev)) :
+def proxyRun (P : Frame → Resp) (ident : Bool) (depth : Nat) (conns : List (List Ev)) :
     Proxy → List (List Iss) → List UseOut
   | _, [] => []
   | p, u :: us =>
-    let (p', o) := proxyUse P depth conns p u
-    o :: proxyRun P depth conns p' us
+    let (p', o) := proxyUse P ident depth conns p u
+    o :: proxyRun P ident depth conns p' us
 
 /-! ### the concrete reply parser used by the driver -/
 
